@@ -1,4 +1,5 @@
 import Spdc.Real.SchmidtLemmas
+import Spdc.Real.ComposeGridLemmas
 /-!
 # C11 — the Schmidt number is a proper effective-mode count
 
@@ -182,5 +183,69 @@ example : schmidt (#[⟨1, 0⟩, ⟨0, 2⟩, ⟨0, 0⟩] : Array (Cx ℝ)) = .er
     have h3 : d * d = 3 := by simpa using hd.symm
     have : d ≤ 3 := by nlinarith
     interval_cases d <;> omega)
+
+/-! ## composed model (grid level)
+
+The theorems above are about the trace-form Schmidt number of an arbitrary flat array.  Below they are
+lifted to the COMPOSED model (`Spdc/Model/ComposeGrid.lean`): `schmidtNumber S divs R` is
+`spdc.joint_spectrum(Simpson{divs}).schmidt_number(R)` computed from the primitive setup — the spectrum
+object through the composed `try_as_optimum`, the amplitude array by mapping the composed `jsa` over
+the row-major enumeration of the frequency space `R` converts to.  Note that the code (and the model)
+reshape the `nx·ny` amplitudes into a `√(nx·ny)`-sided square whatever the two step counts are. -/
+
+/-- the composed Schmidt number is the layer function applied to the composed amplitude array -/
+theorem compose_schmidt_eq (S : Compose.Setup ℝ) (divs : Nat) (js : Compose.JS ℝ)
+    (hjs : Compose.jointSpectrum S divs = .ok js) (J : PM.JSetup ℝ) (hJ : Compose.jsetup S = .ok J)
+    (q : List (ℝ × ℝ) × ℝ) (hq : Compose.simpsonRule divs = .ok q) (R : Compose.Ranges ℝ) :
+    Compose.schmidtNumber S divs R
+      = schmidtSetup (PM.jsa J q.1 q.2) R.toFrequencySpace.collect := by
+  obtain ⟨hS, hd, -⟩ := Compose.jointSpectrum_ok hjs
+  unfold Compose.schmidtNumber Compose.JS.jsaRange
+  rw [hjs]
+  simp only [Outcome.bind, Compose.Ranges.points]
+  rw [Compose.mapPoints_ok js.jsa (PM.jsa J q.1 q.2) _
+    (fun p _ => Compose.jsa_eq_of_ok (hS ▸ hJ) (hd ▸ hq) p.1 p.2)]
+  rfl
+
+/-- composed model, T2 lifted: whenever the number of grid points is a perfect square `n²` and the
+composed spectrum does not vanish at every grid point, the composed Schmidt number of ANY primitive
+setup over ANY range satisfies `1 ≤ K ≤ n`. -/
+theorem compose_schmidt_bounds (S : Compose.Setup ℝ) (divs : Nat) (js : Compose.JS ℝ)
+    (hjs : Compose.jointSpectrum S divs = .ok js) (J : PM.JSetup ℝ) (hJ : Compose.jsetup S = .ok J)
+    (q : List (ℝ × ℝ) × ℝ) (hq : Compose.simpsonRule divs = .ok q) (R : Compose.Ranges ℝ) (n : ℕ)
+    (hlen : R.toFrequencySpace.x.n * R.toFrequencySpace.y.n = n * n)
+    (hnz : ∃ p ∈ R.toFrequencySpace.collect, (PM.jsa J q.1 q.2 p.1 p.2).toC ≠ 0) :
+    ∃ K, Compose.schmidtNumber S divs R = .ok K ∧ 1 ≤ K ∧ K ≤ n := by
+  rw [compose_schmidt_eq S divs js hjs J hJ q hq R, (setup_wrapper _ _).1]
+  apply one_le_K_le_n
+  · simp [Compose.length_collect, hlen]
+  · obtain ⟨p, hp, hne⟩ := hnz
+    obtain ⟨k, hk, rfl⟩ := List.getElem_of_mem hp
+    refine ⟨k, by simpa using hk, ?_⟩
+    simpa [Array.getD, hk] using hne
+
+/-- composed model, T5 lifted: a range whose number of grid points is not a perfect square is rejected
+with the `Err` (and only then, given that the spectrum object and the amplitudes exist). -/
+theorem compose_schmidt_nonsquare (S : Compose.Setup ℝ) (divs : Nat) (js : Compose.JS ℝ)
+    (hjs : Compose.jointSpectrum S divs = .ok js) (J : PM.JSetup ℝ) (hJ : Compose.jsetup S = .ok J)
+    (q : List (ℝ × ℝ) × ℝ) (hq : Compose.simpsonRule divs = .ok q) (R : Compose.Ranges ℝ) :
+    (¬ ∃ d, R.toFrequencySpace.x.n * R.toFrequencySpace.y.n = d * d)
+      ↔ Compose.schmidtNumber S divs R = .err "not-square" := by
+  rw [compose_schmidt_eq S divs js hjs J hJ q hq R, ← (setup_wrapper _ _).2, Compose.length_collect]
+
+/-- non-vacuity: a 2×3 range has a non-square number of points; a 1×4 range reshapes to side 2 -/
+example : ¬ ∃ d, (2 : ℕ) * 3 = d * d := by
+  rintro ⟨d, hd⟩
+  have : d ≤ 3 := by nlinarith
+  interval_cases d <;> omega
+
+example : (1 : ℕ) * 4 = 2 * 2 := rfl
+
+/-- non-vacuity of the outcome hypotheses (`hjs`, `hJ`, `hq`): for the concrete unpoled KTP setup
+`Compose.exGrid` (explicit idler, 775 → 1500 + 1603 nm) the spectrum object (Simpson-50), the
+joint-spectrum view and the Simpson rule all exist over ℝ (`Compose.grid_hypotheses_satisfiable`
+shows the same for every unpoled explicit-idler setup with `0 ≠ λ_p < λ_s`) -/
+example : ∃ js J q, Compose.jointSpectrum Compose.exGrid 50 = .ok js ∧ Compose.jsetup Compose.exGrid = .ok J ∧
+    (Compose.simpsonRule 50 : Outcome (List (ℝ × ℝ) × ℝ)) = .ok q := Compose.exGrid_available
 
 end Spdc.Props.C11
